@@ -69,14 +69,12 @@ FS_ERRORS = None
 
 def exc_name(e):
     """Canonical outcome text for an exception: err:<fs.errors class> or crash:<kind>."""
-    import fs.errors as fe
     t = type(e)
-    if isinstance(e, fe.FSError):
-        # most specific fs.errors class known to the model
-        for klass in t.__mro__:
-            if klass.__module__ == "fs.errors":
-                return "err:" + klass.__name__
-        return "err:FSError"
+    # most specific class defined in fs.errors (IllegalBackReference derives from ValueError,
+    # not from FSError) or fs.opener.errors
+    for klass in t.__mro__:
+        if klass.__module__ in ("fs.errors", "fs.opener.errors"):
+            return "err:" + klass.__name__
     known = ("AssertionError", "AttributeError", "KeyError", "ValueError", "TypeError",
              "IndexError")
     for k in known:
@@ -286,7 +284,7 @@ def vm_crosscheck(lines, expected, tag, limit=200):
                  "length (filter negb verdicts)).\n")
     p = subprocess.run(["timeout", "600", "coqc", "-Q", COQ, "PyFS", vfile], cwd=WORK,
                        stdout=subprocess.PIPE, stderr=subprocess.STDOUT, universal_newlines=True)
-    m = re.search(r"=\s*\((\d+),\s*(\d+)\)", p.stdout)
+    m = re.search(r"=\s*\((\d+)(?:%nat)?,\s*(\d+)(?:%nat)?\)", p.stdout)
     for ext in (".vo", ".glob", ".vok", ".vos"):
         try:
             os.remove(vfile[:-2] + ext)
